@@ -70,24 +70,25 @@ CONTRACTS = {
  M + '_get_lec_abs_diffs': dict(
     params=PA, requires=PRE,
     loops={0: dict(invariant=['len(lec_num_allocations) == self.num_lecturers',
-                              'forall(k, 0, self.num_lecturers, lec_num_allocations[k] == Count(q, _k, pair_assignments[q].lecturer_index == k))']),
+                              'forall(k, 0, self.num_lecturers, lec_num_allocations[k] == loadL_upto(pair_assignments, k, _k))']),
            1: dict(invariant=['len(lec_abs_diffs) == self.num_lecturers',
                               'forall(k, 0, _k, lec_abs_diffs[k] == abs(lec_num_allocations[k] - self.lec_targets[k]))'])},
     returns=('list', 'int'),
     ensures=[('one-per-lecturer', 'len(result) == self.num_lecturers'),
-             ('deviation', 'forall(k, 0, self.num_lecturers, result[k] == abs(Count(q, len(pair_assignments), pair_assignments[q].lecturer_index == k) - self.lec_targets[k]))')]),
+             ('deviation', 'forall(k, 0, self.num_lecturers, result[k] == abs(loadL(pair_assignments, k) - self.lec_targets[k]))')]),
 
  M + '_get_max_lec_abs_diff': dict(
     params=PA, requires=PRE,
     loops={0: dict(invariant=['max_lec_abs_diff >= 0', 'forall(k, 0, _k, lec_abs_diffs[k] <= max_lec_abs_diff)',
                               'max_lec_abs_diff == 0 or exists(k, 0, _k, lec_abs_diffs[k] == max_lec_abs_diff)'])},
     returns='int',
-    ensures=[('upper-bound', 'forall(k, 0, self.num_lecturers, abs(Count(q, len(pair_assignments), pair_assignments[q].lecturer_index == k) - self.lec_targets[k]) <= result)'),
-             ('attained-or-zero', 'result == 0 or exists(k, 0, self.num_lecturers, abs(Count(q, len(pair_assignments), pair_assignments[q].lecturer_index == k) - self.lec_targets[k]) == result)')]),
+    ensures=[('non-negative', 'result >= 0'),
+             ('upper-bound', 'forall(k, 0, self.num_lecturers, abs(loadL(pair_assignments, k) - self.lec_targets[k]) <= result)'),
+             ('attained-or-zero', 'result == 0 or exists(k, 0, self.num_lecturers, abs(loadL(pair_assignments, k) - self.lec_targets[k]) == result)')]),
 
  M + '_get_sum_lec_abs_diff': dict(
     params=PA, requires=PRE,
-    defs={'dev': (['k'], 'abs(Count(q, len(pair_assignments), pair_assignments[q].lecturer_index == k) - self.lec_targets[k])')},
+    defs={'dev': (['k'], 'abs(loadL(pair_assignments, k) - self.lec_targets[k])')},
     loops={0: dict(invariant=['sum_lec_abs_diff == Sum(k, _k, dev(k))'])},
     returns='int',
     ensures=[('sum-of-deviations', 'result == Sum(k, self.num_lecturers, dev(k))')]),
